@@ -598,7 +598,17 @@ fn plant_convergent_chains(sc: &mut Scenario, mv: u8, var: u8) {
             };
             let deps = match prev {
                 Some(p) => vec![p],
-                None => if common_root { vec![0] } else { vec![] },
+                None => {
+                    // a later chain may branch off a job of an earlier one instead of starting at the root
+                    let earlier = layout.len() - first_chain_job;
+                    if earlier > 0 && next(3) == 0 && kind != Kind::Always {
+                        vec![first_chain_job + next(earlier)]
+                    } else if common_root {
+                        vec![0]
+                    } else {
+                        vec![]
+                    }
+                }
             };
             let idx = layout.len();
             if kind == Kind::Always {
@@ -621,11 +631,16 @@ fn plant_convergent_chains(sc: &mut Scenario, mv: u8, var: u8) {
         _ => Kind::Always,
     };
     let sink = layout.len();
-    layout.push((sink_kind, lasts.clone()));
+    // not every chain has to reach the sink: the others are side branches of the cascade
+    let mut sink_deps: Vec<usize> = lasts.iter().cloned().filter(|_| next(3) != 0).collect();
+    if sink_deps.is_empty() {
+        sink_deps.push(lasts[lasts.len() - 1]);
+    }
+    layout.push((sink_kind, sink_deps));
     for f in feeders.iter() {
         let span = sink + 1 - first_chain_job;
         let a = first_chain_job + next(span);
-        let b = first_chain_job + next(span);
+        let b = if next(2) == 0 { sink } else { first_chain_job + next(span) };
         for c in [a, b] {
             if layout[c].0 != Kind::Always || c == sink {
                 if !layout[c].1.contains(f) {
@@ -731,7 +746,7 @@ fn plant_convergent_chains(sc: &mut Scenario, mv: u8, var: u8) {
     if fail_root {
         // the root of the first chain is made to run and fails: an upstream-failure cascade through the
         // chain into the sink, past the delayed feeders
-        let r = chain_roots[0];
+        let r = if common_root && sc.slots[0].kind == Kind::Always && var & 64 != 0 { 0 } else { chain_roots[0] };
         let st = &mut sc.steps[1];
         st.edits.push(Edit::Delete(r, 1));
         if sc.slots[r].kind == Kind::Always {
